@@ -12,6 +12,8 @@ pub mod c08;
 pub mod c09;
 pub mod c10;
 pub mod c11;
+pub mod c12;
+pub mod c13;
 pub mod c16;
 pub mod c17;
 
@@ -28,6 +30,8 @@ pub fn run(ctx: &Ctx) -> Option<PropReport> {
         "C09" => c09::run(ctx),
         "C10" => c10::run(ctx),
         "C11" => c11::run(ctx),
+        "C12" => c12::run(ctx),
+        "C13" => c13::run(ctx),
         "C16" => c16::run(ctx),
         "C17" => c17::run(ctx),
         _ => return None,
@@ -47,6 +51,8 @@ pub fn replay(ctx: &Ctx, sub: &str, case: &Value) -> Result<(), Fail> {
         "C09" => c09::replay(ctx, sub, case),
         "C10" => c10::replay(ctx, sub, case),
         "C11" => c11::replay(ctx, sub, case),
+        "C12" => c12::replay(ctx, sub, case),
+        "C13" => c13::replay(ctx, sub, case),
         "C16" => c16::replay(ctx, sub, case),
         "C17" => c17::replay(ctx, sub, case),
         _ => Err(Fail::new("replay-unsupported", "no replay for this property")),
@@ -77,6 +83,7 @@ pub fn leg(prop: &str, seed: u64, n: u64, _rest: &[String]) {
 pub fn exec_custom_journal(v: &Value) -> Result<(), String> {
     match v.get("kind").and_then(|x| x.as_str()).unwrap_or("") {
         "c06-closed" => c06::exec_journalled(v),
+        "c13" => c13::exec_journalled(v),
         _ => Err("unknown journal kind".into()),
     }
 }
